@@ -297,6 +297,12 @@ fn main() {
                 let got = &spec[&(di, api)];
                 ch.obs_hash((di, api, got.len()));
                 let strip = |l: &String| -> String {
+                    // BGZF payload lines carry "vpos=c:u" in the middle
+                    if let Some(p) = l.find(" vpos=") {
+                        let rest = &l[p + 6..];
+                        let n = rest.bytes().take_while(|c| c.is_ascii_digit() || *c == b':').count();
+                        return format!("{}{}", &l[..p], &rest[n..]);
+                    }
                     match l.rfind(" @") {
                         Some(p) if l[p + 2..].bytes().all(|c| c.is_ascii_digit() || c == b':') => l[..p].to_string(),
                         _ => l.clone(),
@@ -315,6 +321,81 @@ fn main() {
                     }
                 }
                 Ok(())
+            });
+        }
+
+        // ---- large_reads: the payload of every BGZF-framed document pulled with caller buffers >= 64 KiB (the
+        //      reader's direct-to-caller-buffer path), under every adversary; oracle = the payload found by the
+        //      independent walker (not the plain-slice run: that path is the same for a slice)
+        {
+            let docs = &docs;
+            let bg: Vec<usize> = (0..docs.len()).filter(|&i| docs[i].format.is_bgzf() && docs[i].inner.is_some()).collect();
+            let bg = &bg;
+            let sizes = [65536usize, 131072, 70000];
+            let fixed: Vec<(ReadMode, &'static str)> = vec![
+                (ReadMode::Full, "full-transfers"),
+                (ReadMode::OneByte, "one-byte"),
+                (ReadMode::InterruptEvery, "interrupt-every"),
+                (ReadMode::Irregular, "irregular"),
+                (ReadMode::Pattern(vec![18, 1, 8, 0, 4096]), "pattern"),
+            ];
+            let fixed = &fixed;
+            ctx.harness(Config::new("large_reads", 0), move |ch: &Chooser| -> Outcome {
+                let di = *ch.pick_free("doc", bg);
+                let d = &docs[di];
+                let size = *ch.pick_free("buffer", &sizes);
+                let payload = &d.inner.as_ref().unwrap().bytes;
+                // 0..fixed.len(): uniform adversaries; beyond: one deviation at call k (every call of the full run)
+                let run = |mode: ReadMode| {
+                    let r = ChunkReader::new(d.bytes.clone(), mode, None).with_boundaries(d.boundaries.clone());
+                    let env = r.log.clone();
+                    let (data, calls, res) = vnd::drive::bgzf_read_all(r, vnd::BgzfRead::Read(size), payload.len() + d.bytes.len() + 1000, payload.len() + 200_000);
+                    let env = env.lock().unwrap().clone();
+                    (data, calls.len(), res, env)
+                };
+                let full_env = if d.big { Vec::new() } else { run(ReadMode::Full).3 };
+                let m = ch.free("adversary", fixed.len() + full_env.len());
+                let (mode, name) = if m < fixed.len() {
+                    fixed[m].clone()
+                } else {
+                    let k = m - fixed.len();
+                    let pos: usize = full_env[..k].iter().sum();
+                    let ml = menu_len(pos, full_env[k].max(1), &d.boundaries);
+                    let alt = 1 + ch.free("alt", ml - 1);
+                    (ReadMode::DeviateAt(k as u64, alt), "deviate-at-one-call")
+                };
+                ch.desc(|| format!("doc={} read({size}) adversary={mode:?}", d.name));
+                let (data, n_calls, res, env) = run(mode);
+                ch.obs_hash((di, size, &env));
+                ch.steps(env.len() as u64);
+                if d.item_ends.len() > 1 && d.inner.as_ref().unwrap().member_starts.windows(2).any(|w| w[0] == w[1]) {
+                    ch.tag("empty member before the last one");
+                }
+                let symptom = if &data == &**payload && res.is_ok() {
+                    return Ok(());
+                } else if let Err(Some(e)) = &res {
+                    format!("error kind={:?}", e.kind())
+                } else if res.is_err() {
+                    "non-termination".to_string()
+                } else if data.len() < payload.len() && payload.starts_with(&data) {
+                    "premature-eof".to_string()
+                } else {
+                    "bytes-differ".to_string()
+                };
+                Err(Violation::new(
+                    format!("format=bgzf api=read(>=64KiB) symptom={symptom}"),
+                    format!(
+                        "doc={} ({} bytes, members end at {:?}, payload {} bytes): bgzf::io::Reader::new(src).read(&mut [0; {size}]) until Ok(0); adversary={name}; read sizes delivered: {}; file (hex): {}",
+                        d.name,
+                        d.bytes.len(),
+                        d.item_ends,
+                        payload.len(),
+                        env_summary(&env),
+                        if d.bytes.len() <= 1600 { hex_full(&d.bytes) } else { vmc::hex(&d.bytes) }
+                    ),
+                    format!("the {} payload bytes found by the independent BGZF walker, then Ok(0)", payload.len()),
+                    format!("{} bytes in {n_calls} calls; outcome {:?}", data.len(), res.as_ref().map_err(|e| e.as_ref().map(|e| e.kind()))),
+                ))
             });
         }
 
